@@ -1,7 +1,7 @@
 (* C16 — Invalid hyperparameters and malformed inputs are rejected, never trained on.
    Statements only; every proof is [exact <lemma of Proofs/Validation.v>]. *)
 From Coq Require Import List ZArith QArith String Bool Permutation Sorted.
-From GV Require Import Model.Validation Model.Doc Gen.Constraints Proofs.Validation.
+From GV Require Import Model.Validation Model.Doc Gen.Constraints Gen.ValidationRules Proofs.Validation.
 Import ListNotations.
 Open Scope string_scope.
 Open Scope list_scope.
@@ -53,31 +53,59 @@ Theorem C16_rejected_leaves_unfitted :
      if params_ok k && x_ok k && samples_ok k && groups_ok k && cross_ok k && affinity_ok k then (true, rev attrs) else (false, [])).
 Proof. split; [exact (fun s => validate_first_unfitted s [])|exact fit_validate_first_outcome]. Qed.
 
-(* the order of checks and writes of the code as it is now (Validation.fit_base / fit_sparse / fit_kauri / fit_kernelrim,
-   tied to the code by the correspondence), for every outcome of the individual checks: what a rejected fit has written.
-   DiscriminativeModel.fit and Kauri.fit: nothing, or n_features_in_ alone when the rejection comes after validate_data
-   (affinity, feature_mask, 2*min_samples_leaf <= min_samples_split).  Sparse models: nothing when the hyper-parameters, the
-   data or the sample count are rejected; the bookkeeping attributes n_features_in_ (and groups_) afterwards. *)
+(* The regenerated definitions of Gen/ValidationRules.v (translator/tr_validation.py, from the ASTs of the current sources)
+   against the hand-written golden copies of Model/Validation.v: check_groups translated whole; the sequence of validation
+   calls, guarded raises and first stores of fitted attributes of DiscriminativeModel.fit, SparseLinearModel.fit,
+   SparseMLPModel.fit, KernelRIM.fit, Kauri.fit and Douglas._init_params; the scalar rules (Kauri's cross-parameter
+   comparison, Douglas' two mask tests, the shape test of a precomputed affinity at both sites). *)
+Theorem C16_regenerated_rules_are_documented :
+  (forall g d, check_groups_gen g d = check_groups_golden g d) /\
+  (base_fit_events = golden_base_fit /\ sparse_linear_fit_events = golden_sparse_fit /\ sparse_mlp_fit_events = golden_sparse_fit /\
+   kernelrim_fit_events = golden_kernelrim_fit /\ kauri_fit_events = golden_kauri_fit /\ douglas_init_events = golden_douglas_init) /\
+  (forall leaf split, kauri_cross_violated_gen leaf split = Z.gtb (leaf * 2) split) /\
+  (forall m d, douglas_mask_violated_gen m d = [negb (Nat.eqb (List.length m) d); negb (existsb (fun b => b) m)]) /\
+  (forall rows cols n, precomputed_shape_bad_gen rows cols n = negb (Nat.eqb rows cols) || negb (Nat.eqb rows n)) /\
+  (forall rows cols n, kauri_precomputed_shape_bad_gen rows cols n = negb (Nat.eqb rows cols) || negb (Nat.eqb rows n)).
+Proof. exact (conj regenerated_check_groups_golden (conj regenerated_events_golden regenerated_rules_golden)). Qed.
+
+(* the regenerated check_groups computes the model's check_groups on every group list with arbitrary entries, hence satisfies
+   C16_check_groups_spec / C16_check_groups_integer_entries *)
+Theorem C16_check_groups_regenerated : forall (groups : list (list gentry)) (d : nat),
+  check_groups_gen groups d = option_map (map (map GInt)) (check_groups_entries groups d).
+Proof. exact check_groups_golden_spec. Qed.
+
+(* the order of checks and writes of the code as it is now: gen_fit_* = the REGENERATED event lists read with the outcomes
+   of the individual checks (they are also what the correspondence runs, through the equal golden models).  For every
+   outcome of the checks, what a rejected fit has written.  DiscriminativeModel.fit, Douglas (with _init_params spelled out)
+   and Kauri.fit: nothing, or n_features_in_ alone when the rejection comes after validate_data (affinity, feature_mask,
+   2*min_samples_leaf <= min_samples_split).  Sparse models: nothing when the hyper-parameters, the data or the sample
+   count are rejected; the bookkeeping attributes n_features_in_ (and groups_) afterwards. *)
 Theorem C16_asis_rejection :
-  (forall w k, fst (run (fit_base w k) []) = false ->
-     snd (run (fit_base w k) []) = (if params_ok k && x_ok k && samples_ok k then ["n_features_in_"] else [])) /\
-  (forall k, fst (run (fit_kauri k) []) = false ->
-     snd (run (fit_kauri k) []) = (if params_ok k && x_ok k && samples_ok k then ["n_features_in_"] else [])) /\
-  (forall w k, fst (run (fit_sparse w k) []) = false ->
-     snd (run (fit_sparse w k) []) =
+  (forall w k, fst (run (gen_fit_base w k) []) = false ->
+     snd (run (gen_fit_base w k) []) = (if params_ok k && x_ok k && samples_ok k then ["n_features_in_"] else [])) /\
+  (forall mask_none len_ok sel_ok k, fst (run (gen_fit_douglas mask_none len_ok sel_ok k) []) = false ->
+     snd (run (gen_fit_douglas mask_none len_ok sel_ok k) []) = (if params_ok k && x_ok k && samples_ok k then ["n_features_in_"] else [])) /\
+  (forall k, fst (run (gen_fit_kauri k) []) = false ->
+     snd (run (gen_fit_kauri k) []) = (if params_ok k && x_ok k && samples_ok k then ["n_features_in_"] else [])) /\
+  (forall w k, fst (run (gen_fit_sparse_linear w k) []) = false ->
+     snd (run (gen_fit_sparse_linear w k) []) =
        (if params_ok k && x_ok k && samples_ok k then (if groups_ok k then ["n_features_in_"; "groups_"; "n_features_in_"] else ["n_features_in_"]) else [])) /\
-  (* regression statements: each of these rejections left weights / groups_ / the training kernel before the repairs *)
-  run (fit_base ["W_"; "b_"] bad_affinity) [] = (false, ["n_features_in_"]) /\
-  run (fit_sparse ["W_"; "b_"] bad_params) [] = (false, []) /\
-  run (fit_sparse ["W_"; "b_"] bad_samples) [] = (false, []) /\
-  run (fit_kernelrim bad_params) [] = (false, []).
+  (forall w k, fst (run (gen_fit_sparse_mlp w k) []) = false ->
+     snd (run (gen_fit_sparse_mlp w k) []) =
+       (if params_ok k && x_ok k && samples_ok k then (if groups_ok k then ["n_features_in_"; "groups_"; "n_features_in_"] else ["n_features_in_"]) else [])) /\
+  (* regression statements: each of these rejections left weights / groups_ / the training kernel / cut_points_list_ before the repairs *)
+  run (gen_fit_base ["W_"; "b_"] bad_affinity) [] = (false, ["n_features_in_"]) /\
+  run (gen_fit_sparse_linear ["W_"; "b_"] bad_params) [] = (false, []) /\
+  run (gen_fit_sparse_linear ["W_"; "b_"] bad_samples) [] = (false, []) /\
+  run (gen_fit_kernelrim bad_params) [] = (false, []) /\
+  run (gen_fit_douglas false true false all_ok) [] = (false, ["n_features_in_"]).
 Proof.
-  exact (conj fit_base_rejection (conj fit_kauri_rejection (conj fit_sparse_rejection fit_asis_repaired))).
+  exact (conj fit_base_rejection (conj fit_douglas_rejection (conj fit_kauri_rejection (conj fit_sparse_rejection (conj fit_sparse_rejection fit_asis_repaired))))).
 Qed.
 
 (* KernelRIM, for every outcome of its checks; partial: this order is NOT "validate first" — see the next statement *)
-Theorem C16_asis_kernelrim_partial : forall k, fst (run (fit_kernelrim k) []) = false ->
-  snd (run (fit_kernelrim k) []) =
+Theorem C16_asis_kernelrim_partial : forall k, fst (run (gen_fit_kernelrim k) []) = false ->
+  snd (run (gen_fit_kernelrim k) []) =
     (if params_ok k && x_ok k then
        (if affinity_ok k then (if samples_ok k then ["n_features_in_"; "training_kernel_"; "input_data_"] else ["training_kernel_"; "input_data_"])
         else ["input_data_"])
@@ -87,8 +115,8 @@ Proof. exact fit_kernelrim_rejection. Qed.
 (* ... KernelRIM stores the training data and its kernel before the sample count is compared with n_clusters
    (bad_samples = the check record in which exactly that test fails) *)
 Theorem C16_asis_validate_first_refuted :
-  validate_first (fit_kernelrim all_ok) = false /\
-  run (fit_kernelrim bad_samples) [] = (false, ["training_kernel_"; "input_data_"]).
+  validate_first (gen_fit_kernelrim all_ok) = false /\
+  run (gen_fit_kernelrim bad_samples) [] = (false, ["training_kernel_"; "input_data_"]).
 Proof. exact fit_asis_leaves_attributes. Qed.
 
 (* cross-parameter rules, the shape of acceptable training data and of a precomputed affinity *)
@@ -100,6 +128,15 @@ Theorem C16_cross_rules :
   (forall ndim rows cols n numeric finite, precomputed_ok ndim rows cols n numeric finite = true <->
      (ndim = 2 /\ numeric = true /\ finite = true /\ rows = cols /\ rows = n)).
 Proof. exact (conj kauri_cross_spec (conj douglas_mask_spec (conj data_ok_spec precomputed_ok_spec))). Qed.
+
+(* ... and these rules are the regenerated ones: the model's rule functions expressed with the tests read from the sources *)
+Theorem C16_cross_rules_regenerated :
+  (forall leaf split, kauri_cross_ok leaf split = negb (kauri_cross_violated_gen leaf split)) /\
+  (forall m d, douglas_mask_ok (Some m) d = negb (existsb (fun b => b) (douglas_mask_violated_gen m d))) /\
+  (forall ndim rows cols n numeric finite,
+     precomputed_ok ndim rows cols n numeric finite = Nat.eqb ndim 2 && numeric && finite && negb (precomputed_shape_bad_gen rows cols n) /\
+     precomputed_shape_bad_gen rows cols n = kauri_precomputed_shape_bad_gen rows cols n).
+Proof. exact (conj kauri_cross_gen (conj douglas_mask_gen precomputed_gen)). Qed.
 
 (* non-vacuity: the tables are populated (233 entries, 214 of them equal to the documentation for all values, when written),
    a concrete entry with its boundary, and a concrete completed partition *)
@@ -118,6 +155,9 @@ Print Assumptions C16_known_disagreements_refuted.
 Print Assumptions C16_check_groups_spec.
 Print Assumptions C16_rejected_leaves_unfitted.
 Print Assumptions C16_check_groups_integer_entries.
+Print Assumptions C16_regenerated_rules_are_documented.
+Print Assumptions C16_check_groups_regenerated.
+Print Assumptions C16_cross_rules_regenerated.
 Print Assumptions C16_asis_rejection.
 Print Assumptions C16_asis_kernelrim_partial.
 Print Assumptions C16_asis_validate_first_refuted.
